@@ -635,6 +635,8 @@ class Emitter:
             a = m.aliases[name]
             if a.kind == 'global': name = a.data
             else: return s.sval(a)
+        if name.startswith(('@_ZTI', '@_ZTS')) or name.startswith('@_ZTVN10__cxxabiv'):
+            return '((char*)0)'   # RTTI: only reachable through __dynamic_cast/typeid, which harnesses map explicitly
         if name in m.funcs:
             s.need_func(name); return '((char*)&%s)' % s.fname(name)
         if name in m.globals:
@@ -890,8 +892,69 @@ class FnEmit:
         # entry block label = next number if unnamed
         s.entry_label = '%%%d' % n
     def lname(s, n):
+        if n in getattr(s, 'inl', ()): return s.inl[n]
         if s.thread: return 'F->v_' + cid(n)
         return 'v_' + cid(n)
+    def plan_inlining(s):
+        """pure single-block SSA values are rendered at their use instead of getting a C local: fewer assignments,
+        hence fewer phi merges in CBMC's symbolic execution.  Safe because SSA operands are immutable and, within one
+        basic block, the C variables that stand for phi nodes are not reassigned."""
+        s.inl = {}; s.inl_ok = set()
+        if s.em.opts.no_inline_expr: return
+        defs = {}; useblocks = collections.defaultdict(list)
+        def vals(I):
+            for k, v in I.__dict__.items():
+                if isinstance(v, V): yield v
+                elif isinstance(v, list):
+                    for x in v:
+                        if isinstance(x, V): yield x
+                        elif isinstance(x, tuple) and x and isinstance(x[0], V): yield x[0]
+        for bl, ins in s.f.blocks.items():
+            for I in ins:
+                if I.res is not None: defs[I.res] = (bl, I)
+                if I.op == 'phi':
+                    for val, lb in I.inc:
+                        if val.kind == 'local': useblocks[val.data].append('%entry__' if (lb == s.entry_label and lb not in s.f.blocks) else lb)
+                else:
+                    for v in vals(I):
+                        if v.kind == 'local': useblocks[v.data].append(bl)
+        for r, (bl, I) in defs.items():
+            pure = (I.op == 'bin' and I.bop not in ('udiv', 'sdiv', 'urem', 'srem') and not isinstance(I.ty, FloatTy)) or \
+                   I.op in ('icmp', 'cast', 'gep') or (I.op == 'select')
+            if not pure: continue
+            ub = useblocks.get(r, [])
+            if not ub or any(b != bl for b in ub): continue
+            if len(ub) > 1 and I.op not in ('gep', 'cast'): continue
+            if len(ub) > 3: continue
+            s.inl_ok.add(r)
+    def rpo_blocks(s):
+        """blocks in reverse post-order, so that only genuine loop back edges are backward gotos in the C
+        (CBMC merges paths at forward gotos only and counts every backward goto as a loop iteration)"""
+        f = s.f; blocks = f.blocks
+        def norm(l): return '%entry__' if (l == s.entry_label and l not in blocks) else l
+        succ = {}
+        for bl, ins in blocks.items():
+            out = []
+            if ins:
+                T = ins[-1]
+                if T.op == 'br': out = [T.dest]
+                elif T.op == 'condbr': out = [T.t, T.f]
+                elif T.op == 'switch': out = [T.default] + [lb for _, lb in T.cases]
+            succ[bl] = [norm(x) for x in out]
+        order = []; seen = set()
+        entry = next(iter(blocks))
+        stack = [(entry, iter(succ[entry]))]; seen.add(entry)
+        while stack:
+            b, it = stack[-1]
+            for n in it:
+                if n not in seen and n in blocks:
+                    seen.add(n); stack.append((n, iter(reversed(succ[n])))); break
+            else:
+                order.append(b); stack.pop()
+        order.reverse()
+        res = collections.OrderedDict()
+        for b in order: res[b] = blocks[b]
+        return res
     def private_ptrs(s):
         """allocas (and pointers derived from them) that never escape"""
         f = s.f; defs = {}
@@ -942,6 +1005,8 @@ class FnEmit:
             for I in ins:
                 if I.res is not None:
                     t = I.ty
+                    if I.op in ('icmp', 'fcmp'):
+                        t = IntTy(1); I.rty = t
                     if I.op == 'extractvalue':
                         t = I.a.ty if I.a.kind != 'local' else s.types[I.a.data]
                         if I.a.kind == 'local': I.a.ty = t
@@ -951,6 +1016,8 @@ class FnEmit:
                     s.types[I.res] = t
         if s.thread: s.priv = s.private_ptrs()
         body = []
+        f.blocks = s.rpo_blocks()
+        s.plan_inlining()
         for bl, ins in f.blocks.items():
             lab = bl
             body.append('%s: ;' % s.label(lab))
@@ -964,7 +1031,7 @@ class FnEmit:
             nm = em.fname(f.name)
             fields = []
             for n, t in s.types.items():
-                if isinstance(t, VoidTy) or t is None: continue
+                if isinstance(t, VoidTy) or t is None or n in s.inl: continue
                 fields.append('  %s v_%s;' % (em.cty(t), cid(n)))
             for bl, ins in f.blocks.items():
                 for I in ins:
@@ -980,7 +1047,7 @@ class FnEmit:
         decls = []
         for n, t in s.types.items():
             if any(n == pn for _, pn in f.params): continue
-            if isinstance(t, VoidTy) or t is None: continue
+            if isinstance(t, VoidTy) or t is None or n in s.inl: continue
             decls.append('  %s %s;' % (em.cty(t), s.lname(n)))
         for bl, ins in f.blocks.items():
             for I in ins:
@@ -1005,6 +1072,14 @@ class FnEmit:
         return ' '.join(s.phi_moves(frm, to) + ['goto %s;' % s.label(to)])
     def instr(s, I, bl):
         em = s.em; op = I.op
+        if I.res in s.inl_ok:
+            if op == 'bin': e = em.binop(I.bop, I.ty, s.v(I.a), s.v(I.b))
+            elif op == 'icmp': e = em.icmp(I.pred, I.ty, s.v(I.a), s.v(I.b))
+            elif op == 'cast': e = em.cast(I.cop, s.tv(I.a), I.ty, s)
+            elif op == 'select': e = '(%s ? %s : %s)' % (s.v(I.c), s.v(I.a), s.v(I.b))
+            else: e = em.gep(I.bt, [s.tv(o) for o in I.ops], s)
+            if len(e) <= 600:
+                s.inl[I.res] = e; return []
         R = s.lname(I.res) if I.res else None
         if op == 'bin': return ['%s = %s;' % (R, em.binop(I.bop, I.ty, s.v(I.a), s.v(I.b)))]
         if op == 'icmp': return ['%s = %s;' % (R, em.icmp(I.pred, I.ty, s.v(I.a), s.v(I.b)))]
@@ -1095,6 +1170,10 @@ class FnEmit:
             if n.startswith('llvm.'):
                 return s.intrinsic(n, I, R, args, asg)
             while name in em.mod.aliases and em.mod.aliases[name].kind == 'global': name = em.mod.aliases[name].data
+            for rx, fn in em.opts.map:
+                if re.search(rx, name):
+                    mn = '@' + fn; em.need_func(mn)
+                    return ['%s%s(%s);' % (asg, em.fname(mn), ', '.join(args))]
             em.need_func(name)
             f = em.mod.funcs[name]
             cargs = list(args)
@@ -1106,10 +1185,6 @@ class FnEmit:
                     if not s.thread: raise ValueError('blocking call outside thread entry: ' + s.f.name)
                     s.ncs += 1; k = s.ncs
                     return ['%s(%s); F->pc = %d; return 2; CS_%d: %s%s();' % (em.fname(bn), ', '.join(args), k, k, asg, em.fname(en))]
-            for rx, fn in em.opts.map:
-                if re.search(rx, name):
-                    mn = '@' + fn; em.need_func(mn)
-                    return ['%s%s(%s);' % (asg, em.fname(mn), ', '.join(args))]
             if s.thread and n.startswith('verif_block'):
                 s.ncs += 1; k = s.ncs
                 return ['CS_%d: if (!%s(%s)) { F->pc = %d; return 2; }' % (k, n, ', '.join(args), k)]
@@ -1121,7 +1196,8 @@ class FnEmit:
                     g = a1.data[2][0].data if a1.kind == 'cexpr' else a1.data
                     raw = em.mod.globals[g].init.data[2:-1]
                     lit = re.sub(r'\\[0-9A-Fa-f]{2}', '', raw)
-                except Exception: pass
+                except Exception:
+                    raise ValueError('__CPROVER_assert message is not a string literal in %s (merged call sites?)' % s.f.name)
                 return ['__CPROVER_assert(%s, "%s");' % (args[0], lit)]
             return ['%s%s(%s);' % (asg, em.fname(name), ', '.join(cargs))]
         # indirect
@@ -1185,6 +1261,7 @@ def main():
     ap.add_argument('--map', action='append', default=[], help='regex=fn : call harness fn instead')
     ap.add_argument('--asm', action='append', default=[], help='asmstring=hook')
     ap.add_argument('--list', action='store_true')
+    ap.add_argument('--no-inline-expr', dest='no_inline_expr', action='store_true')
     o = ap.parse_args()
     o.asm = dict(x.rsplit('=', 1) for x in o.asm)
     o.blocking = [x.rsplit('=', 1) for x in o.blocking]
